@@ -104,9 +104,9 @@ other("C02", "point_interval (the column ranges of the two images that a dispari
       "sd_cost (monoband: the pixel-wise |L - R| / (L - R)^2 between left column p0+i and right column q0+i) and "
       "pixel_wise_aggregation (every output cell is np.sum over ITS OWN window_size x window_size window of the pixel-wise volume, "
       "NaN exactly when the window holds a NaN; the five-axis as_strided view is shown memory-safe) -- their composition inside "
-      "SadSsd.compute_cost_volume is proved END TO END at pixel precision for monoband images, every window size, image size and "
+      "SadSsd.compute_cost_volume is proved END TO END at pixel precision for monoband images, every odd window size >= 3, image size and "
       "disparity list, for both sad and ssd (disparity loop invariant over the enlarged volume, crop / permuted views, border, column "
-      "selection; two paths: with and without a window offset): the cost of pixel (y, x) at disparity d is np.sum over the window "
+      "selection): the cost of pixel (y, x) at disparity d is np.sum over the window "
       "centred on it of |L(r, c) - R(r, c + d)| (resp. squared), NaN on the border; reported type_measure is 'min'.  "
       "shift_right_img / census_transform leave their input image untouched ("
       + FRAME_NOTE + "); census and zncc values, sub-pixel shifts, multiband selection, masks (cv_masked), reported cmax:", trusted=FRAME_TRUSTED + [
@@ -117,7 +117,8 @@ other("C02", "point_interval (the column ranges of the two images that a dispari
           "assumed contract on AbstractMatchingCost.check_band_input_mc: with no band selected and monoband datasets it returns without effect",
           "np.amin / np.amax of an image are uninterpreted functions of its contents (finite when all samples are): cmax is reported, not proved"],
       assumptions=["for the end-to-end sad/ssd proof: pixel precision (subpix 1, integer disparities), monoband finite images of equal size, "
-                   "every column computed (step 1), window_size == 2 * offset_row_col + 1 not larger than the image"])
+                   "every column computed (step 1), window_size == 2 * offset_row_col + 1 >= 3 not larger than the image (the single-pixel window "
+                   "takes a code path without the enlarged frame whose obligations were unstable in both solvers: bounded only)"])
 reg("C04", "proof",
     "every function that raises a pre-validation bit is under contract and proved over symbolic datasets (vectorised numpy "
     "layer): criteria.mask_border (border pixels end with exactly bit 0); validity_mask for images without input masks (bits 1 "
